@@ -355,4 +355,126 @@ theorem decDigits_injective : Function.Injective decDigits := by
   simp only [Nat.ofDigitChars_toDigits (by decide : 1 < 10) (by decide : 10 ≤ 10)] at h2
   exact h2
 
+theorem saveOps_atomic_eq (size : β → Nat) (k : κ) (res : β) :
+    saveOps .atomic size k res = saveOpsAt size (.tmp k) (.final k) res := rfl
+
+/-- what is left to do of a (possibly cut) save, together with what its temporary holds -/
+inductive Pending (size : β → Nat) (tP fin : Path κ) (r : β) (fs : FS κ β) : List (Op κ β) → Prop where
+  | done : Pending size tP fin r fs []
+  | fresh (m : Nat) (hm : m ≤ size r) : Pending size tP fin r fs (.openW tP r :: List.replicate m (.write1 tP))
+  | freshFull : Pending size tP fin r fs (saveOpsAt size tP fin r)
+  | writing (p m : Nat) (hf : fs tP = .data r p) (hm : p + m ≤ size r) :
+      Pending size tP fin r fs (List.replicate m (.write1 tP))
+  | finishing (p m : Nat) (hf : fs tP = .data r p) (hm : p + m = size r) :
+      Pending size tP fin r fs (List.replicate m (.write1 tP) ++ [.rename tP fin])
+
+/-- every prefix of a save is pending from any state -/
+theorem pending_take (size : β → Nat) (tP fin : Path κ) (r : β) (fs : FS κ β) (c : Nat) :
+    Pending size tP fin r fs ((saveOpsAt size tP fin r).take c) := by
+  unfold saveOpsAt
+  cases c with
+  | zero => exact .done
+  | succ c =>
+    simp only [List.take_succ_cons]
+    by_cases hc : c ≤ size r
+    · have : (List.replicate (size r) (Op.write1 tP : Op κ β) ++ [Op.rename tP fin]).take c = List.replicate c (.write1 tP) := by
+        rw [List.take_append_of_le_length (by simpa using hc)]
+        simp [List.take_replicate, Nat.min_eq_left hc]
+      rw [this]
+      exact .fresh c hc
+    · have : (List.replicate (size r) (Op.write1 tP : Op κ β) ++ [Op.rename tP fin]).take c
+          = List.replicate (size r) (Op.write1 tP) ++ [Op.rename tP fin] := by
+        apply List.take_of_length_le
+        simp; omega
+      rw [this]
+      exact .freshFull
+
+theorem FS.set_get (fs : FS κ β) (p q : Path κ) (f : File β) :
+    (fs.set p f) q = if q = p then f else fs q := rfl
+
+/-- pending work only looks at the writer's own temporary -/
+theorem Pending.congr {size : β → Nat} {tP fin : Path κ} {r : β} {fs fs' : FS κ β} {a : List (Op κ β)}
+    (h : fs' tP = fs tP) (hp : Pending size tP fin r fs a) : Pending size tP fin r fs' a := by
+  cases hp with
+  | done => exact .done
+  | fresh m hm => exact .fresh m hm
+  | freshFull => exact .freshFull
+  | writing p m hf hm => exact .writing p m (h.trans hf) hm
+  | finishing p m hf hm => exact .finishing p m (h.trans hf) hm
+
+/-- one step of a writer: its remaining work stays pending, the result file is left alone or becomes the writer's
+COMPLETE result, and no other path than its temporary and the result file is touched -/
+theorem Pending.step {size : β → Nat} {tP fin : Path κ} {r : β} {fs : FS κ β} {o : Op κ β} {rest : List (Op κ β)}
+    (hne : tP ≠ fin) (hp : Pending size tP fin r fs (o :: rest)) :
+    Pending size tP fin r (applyOp fs o) rest ∧
+    ((applyOp fs o) fin = fs fin ∨ (applyOp fs o) fin = .data r (size r)) ∧
+    ∀ q, q ≠ tP → q ≠ fin → (applyOp fs o) q = fs q := by
+  have hfin : fin ≠ tP := fun e => hne e.symm
+  generalize hl : o :: rest = l at hp
+  cases hp with
+  | done => cases hl
+  | fresh m hm =>
+    simp only [List.cons.injEq] at hl
+    obtain ⟨rfl, rfl⟩ := hl
+    refine ⟨.writing 0 m (by simp [applyOp, FS.set_get]) (by omega), .inl (by simp [applyOp, FS.set_get, hfin]), ?_⟩
+    intro q h1 _; simp [applyOp, FS.set_get, h1]
+  | freshFull =>
+    simp only [saveOpsAt, List.cons.injEq] at hl
+    obtain ⟨rfl, rfl⟩ := hl
+    refine ⟨.finishing 0 (size r) (by simp [applyOp, FS.set_get]) (by omega), .inl (by simp [applyOp, FS.set_get, hfin]), ?_⟩
+    intro q h1 _; simp [applyOp, FS.set_get, h1]
+  | writing p m hf hm =>
+    cases m with
+    | zero => simp at hl
+    | succ m =>
+      simp only [List.replicate_succ, List.cons.injEq] at hl
+      obtain ⟨rfl, rfl⟩ := hl
+      refine ⟨.writing (p + 1) m (by simp [applyOp, FS.set_get, hf, File.bump]) (by omega),
+        .inl (by simp [applyOp, FS.set_get, hfin]), ?_⟩
+      intro q h1 _; simp [applyOp, FS.set_get, h1]
+  | finishing p m hf hm =>
+    cases m with
+    | zero =>
+      simp only [List.replicate_zero, List.nil_append, List.cons.injEq] at hl
+      obtain ⟨rfl, rfl⟩ := hl
+      refine ⟨.done, .inr ?_, ?_⟩
+      · have : p = size r := by omega
+        simp [applyOp, FS.set_get, hfin, hf, this]
+      · intro q h1 h2; simp [applyOp, FS.set_get, h1, h2]
+    | succ m =>
+      simp only [List.replicate_succ, List.cons_append, List.cons.injEq] at hl
+      obtain ⟨rfl, rfl⟩ := hl
+      refine ⟨.finishing (p + 1) m (by simp [applyOp, FS.set_get, hf, File.bump]) (by omega),
+        .inl (by simp [applyOp, FS.set_get, hfin]), ?_⟩
+      intro q h1 _; simp [applyOp, FS.set_get, h1]
+
+/-- two writers of ONE result file with different temporaries, every interleaving of their (pending) steps: the result
+file ends as it was, or as one writer's complete result, or as the other's -/
+theorem two_writers_inv {size : β → Nat} {tA tB fin : Path κ} {rA rB : β} (hAB : tA ≠ tB) (hA : tA ≠ fin)
+    (hB : tB ≠ fin) (F0 : File β) :
+    ∀ (a b l : List (Op κ β)), Interleave a b l → ∀ (fs : FS κ β),
+      Pending size tA fin rA fs a → Pending size tB fin rB fs b →
+      (fs fin = F0 ∨ fs fin = .data rA (size rA) ∨ fs fin = .data rB (size rB)) →
+      ((applyOps fs l) fin = F0 ∨ (applyOps fs l) fin = .data rA (size rA) ∨
+        (applyOps fs l) fin = .data rB (size rB)) := by
+  intro a b l h
+  induction h with
+  | nil => intro fs _ _ hf; simpa [applyOps] using hf
+  | left x _ ih =>
+    intro fs pa pb hf
+    obtain ⟨pa', hfin, hoth⟩ := pa.step hA
+    rw [applyOps_cons]
+    apply ih _ pa' (pb.congr (hoth tB (fun e => hAB e.symm) hB))
+    rcases hfin with e | e
+    · rw [e]; exact hf
+    · exact .inr (.inl e)
+  | right x _ ih =>
+    intro fs pa pb hf
+    obtain ⟨pb', hfin, hoth⟩ := pb.step hB
+    rw [applyOps_cons]
+    apply ih _ (pa.congr (hoth tA hAB hA)) pb'
+    rcases hfin with e | e
+    · rw [e]; exact hf
+    · exact .inr (.inr e)
+
 end Mxl.C19
